@@ -31,17 +31,19 @@ inductive Step (P : Params) (s : State) : State → Prop where
       (hp : s.phase i = .reading (.fail e) reads blocked) :
       Step P s (setPhase s i (.errMark e (oldWrites s i) (oldLocs s i)))
   | publishOne (i : TxId) (run : Pending) (l : Loc) (todo : List Loc) (newLoc : Bool) (v : Val)
-      (hp : s.phase i = .publishing run (l :: todo) newLoc) (hv : lookup run.writes l = some v) :
+      (hp : s.phase i = .publishing run todo newLoc) (hl : l ∈ todo)
+      (hv : lookup run.writes l = some v) :
       Step P s { s with mv := setMv s.mv l i (some { inc := s.inc i, val := v, est := run.blocked }),
                         phase := updF s.phase i
-                          (.publishing run todo (newLoc || !decide (l ∈ oldLocs s i))) }
+                          (.publishing run (todo.erase l) (newLoc || !decide (l ∈ oldLocs s i))) }
   | endPublish (i : TxId) (run : Pending) (newLoc : Bool)
       (hp : s.phase i = .publishing run [] newLoc) :
       Step P s (setPhase s i (.removing run
         ((oldLocs s i).filter (fun l => !decide (l ∈ writeLocs run.writes))) newLoc))
   | removeOne (i : TxId) (run : Pending) (l : Loc) (todo : List Loc) (newLoc : Bool)
-      (hp : s.phase i = .removing run (l :: todo) newLoc) :
-      Step P s { s with mv := setMv s.mv l i none, phase := updF s.phase i (.removing run todo newLoc) }
+      (hp : s.phase i = .removing run todo newLoc) (hl : l ∈ todo) :
+      Step P s { s with mv := setMv s.mv l i none,
+                        phase := updF s.phase i (.removing run (todo.erase l) newLoc) }
   | recordBlocked (i : TxId) (run : Pending) (newLoc : Bool)
       (hp : s.phase i = .removing run [] newLoc) (hb : run.blocked = true) :
       Step P s (setPhase { s with result := updF s.result i (some
@@ -59,19 +61,19 @@ inductive Step (P : Params) (s : State) : State → Prop where
           { inc := s.inc i, reads := run.reads, writes := run.writes, out := .ok run.writes run.out }),
                         status := updF s.status i .validating, phase := updF s.phase i .valPreTs }
   | markErrSome (i : TxId) (e : Nat) (ow : List (Loc × Val)) (l : Loc) (todo : List Loc) (en : Entry)
-      (hp : s.phase i = .errMark e ow (l :: todo)) (hm : s.mv l i = some en) :
+      (hp : s.phase i = .errMark e ow todo) (hl : l ∈ todo) (hm : s.mv l i = some en) :
       Step P s { s with mv := setMv s.mv l i (some { en with est := true }),
-                        phase := updF s.phase i (.errMark e ow todo) }
+                        phase := updF s.phase i (.errMark e ow (todo.erase l)) }
   | markErrNone (i : TxId) (e : Nat) (ow : List (Loc × Val)) (l : Loc) (todo : List Loc)
-      (hp : s.phase i = .errMark e ow (l :: todo)) (hm : s.mv l i = none) :
-      Step P s (setPhase s i (.errMark e ow todo))
+      (hp : s.phase i = .errMark e ow todo) (hl : l ∈ todo) (hm : s.mv l i = none) :
+      Step P s (setPhase s i (.errMark e ow (todo.erase l)))
   | markValSome (i : TxId) (l : Loc) (todo : List Loc) (en : Entry)
-      (hp : s.phase i = .valMark (l :: todo)) (hm : s.mv l i = some en) :
+      (hp : s.phase i = .valMark todo) (hl : l ∈ todo) (hm : s.mv l i = some en) :
       Step P s { s with mv := setMv s.mv l i (some { en with est := true }),
-                        phase := updF s.phase i (.valMark todo) }
+                        phase := updF s.phase i (.valMark (todo.erase l)) }
   | markValNone (i : TxId) (l : Loc) (todo : List Loc)
-      (hp : s.phase i = .valMark (l :: todo)) (hm : s.mv l i = none) :
-      Step P s (setPhase s i (.valMark todo))
+      (hp : s.phase i = .valMark todo) (hl : l ∈ todo) (hm : s.mv l i = none) :
+      Step P s (setPhase s i (.valMark (todo.erase l)))
   | endErrMark (i : TxId) (e : Nat) (ow : List (Loc × Val))
       (hp : s.phase i = .errMark e ow []) :
       Step P s { s with result := updF s.result i (some
@@ -89,8 +91,10 @@ inductive Step (P : Params) (s : State) : State → Prop where
       Step P s { s with clock := s.clock + 1,
                         phase := updF s.phase i (.valScan s.clock [] r.reads false) }
   | valCheck (i : TxId) (ts : Nat) (done : List ReadRec) (r : ReadRec) (todo : List ReadRec)
-      (conflict : Bool) (hp : s.phase i = .valScan ts done (r :: todo) conflict) :
-      Step P s (setPhase s i (.valScan ts (r :: done) todo (conflict || !readOk s.mv i r)))
+      (conflict : Bool) (k : Nat) (hp : s.phase i = .valScan ts done todo conflict)
+      (hk : todo[k]? = some r) :
+      Step P s (setPhase s i (.valScan ts (r :: done) (todo.eraseIdx k)
+        (conflict || !readOk s.mv i r)))
   | endScanConflict (i : TxId) (ts : Nat) (done : List ReadRec)
       (hp : s.phase i = .valScan ts done [] true) :
       Step P s (setPhase s i (.valMark (oldLocs s i)))
@@ -133,19 +137,29 @@ theorem step_sound {P : Params} {s s' : State} {a : Act} (h : step P s a = some 
     · rename_i w o reads blocked hp; simp at h; subst h; exact .execFinishOk i w o reads blocked hp
     · rename_i e reads blocked hp; simp at h; subst h; exact .execFinishErr i e reads blocked hp
     · simp at h
-  | publishOne i =>
+  | publishOne i l =>
     simp only [step] at h
     split at h
-    · rename_i run l todo newLoc hp
+    · rename_i run todo newLoc hp
       split at h
-      · rename_i v hv; simp at h; subst h; exact .publishOne i run l todo newLoc v hp hv
+      · rename_i hl
+        split at h
+        · rename_i v hv; simp at h; subst h; exact .publishOne i run l todo newLoc v hp hl hv
+        · simp at h
       · simp at h
+    · simp at h
+  | endPublish i =>
+    simp only [step] at h
+    split at h
     · rename_i run newLoc hp; simp at h; subst h; exact .endPublish i run newLoc hp
     · simp at h
-  | removeOne i =>
+  | removeOne i l =>
     simp only [step] at h
     split at h
-    · rename_i run l todo newLoc hp; simp at h; subst h; exact .removeOne i run l todo newLoc hp
+    · rename_i run todo newLoc hp
+      split at h
+      · rename_i hl; simp at h; subst h; exact .removeOne i run l todo newLoc hp hl
+      · simp at h
     · simp at h
   | recordResult i handoff =>
     simp only [step] at h
@@ -164,17 +178,23 @@ theorem step_sound {P : Params} {s s' : State} {a : Act} (h : step P s a = some 
           subst this
           exact .recordDirect i run hp hb'
     · simp at h
-  | markOne i =>
+  | markOne i l =>
     simp only [step] at h
     split at h
-    · rename_i e ow l todo hp
+    · rename_i e ow todo hp
       split at h
-      · rename_i en hm; simp at h; subst h; exact .markErrSome i e ow l todo en hp hm
-      · rename_i hm; simp at h; subst h; exact .markErrNone i e ow l todo hp hm
-    · rename_i l todo hp
+      · rename_i hl
+        split at h
+        · rename_i en hm; simp at h; subst h; exact .markErrSome i e ow l todo en hp hl hm
+        · rename_i hm; simp at h; subst h; exact .markErrNone i e ow l todo hp hl hm
+      · simp at h
+    · rename_i todo hp
       split at h
-      · rename_i en hm; simp at h; subst h; exact .markValSome i l todo en hp hm
-      · rename_i hm; simp at h; subst h; exact .markValNone i l todo hp hm
+      · rename_i hl
+        split at h
+        · rename_i en hm; simp at h; subst h; exact .markValSome i l todo en hp hl hm
+        · rename_i hm; simp at h; subst h; exact .markValNone i l todo hp hl hm
+      · simp at h
     · simp at h
   | endErrMark i =>
     simp only [step] at h
@@ -202,10 +222,13 @@ theorem step_sound {P : Params} {s s' : State} {a : Act} (h : step P s a = some 
     split at h
     · rename_i r hp hr; simp at h; subst h; exact .valTs i r hp hr
     · simp at h
-  | valCheck i =>
+  | valCheck i k =>
     simp only [step] at h
     split at h
-    · rename_i ts done r todo conflict hp; simp at h; subst h; exact .valCheck i ts done r todo conflict hp
+    · rename_i ts done todo conflict hp
+      split at h
+      · rename_i r hk; simp at h; subst h; exact .valCheck i ts done r todo conflict k hp hk
+      · simp at h
     · simp at h
   | endScan i =>
     simp only [step] at h
